@@ -171,6 +171,96 @@ def _stack_ref_mov(prog, run, rule, fi, f):
         run.ob(rule, fi.qual, "per-setup record stack", None, "vstack((ref, mov)) not found", file=f)
 
 
+ORDER_LOSING_CALLS = ("sorted", "set", "sort", "unique", "argsort", "frozenset", "reversed", "union1d", "intersect1d", "setdiff1d")
+ORDER_KEEPING_CALLS = ("list", "tuple", "asarray", "array", "atleast_1d", "asanyarray", "tolist", "astype", "copy", "deepcopy", "int", "ravel", "flatten", "where", "zip",
+                       "enumerate", "squeeze", "item", "intp", "int64")
+
+
+def order_flow(prog, fi, e, sources, depth=3, _seen=()):
+    """does the value of `e` in fi keep the listed order of the parameters in `sources` it is made of?  'kept': only order-preserving
+    conversions (asarray, tolist, wrapping of negative numbers ..) lie between them; 'lost': it passes through a sort / unique / set;
+    None: not followed.  Flow-insensitive over the assignments, appends and loops of fi; helpers of the package are followed."""
+    def comb(vs):
+        vs = list(vs)
+        if any(v == "lost" for v in vs):
+            return "lost"
+        if vs and all(v == "kept" for v in vs):
+            return "kept"
+        return None
+
+    fparams = set(astq.params_of(fi.node)[0] + astq.params_of(fi.node)[1])
+
+    def name_flow(nm, seen):
+        if nm in sources:
+            return "kept"
+        if nm in fparams and not any(isinstance(n_, ast.Name) and n_.id == nm and isinstance(n_.ctx, ast.Store) for n_ in ast.walk(fi.node)):
+            return "const"          # another argument: nothing of the lists in question
+        if nm in seen:
+            return "kept"           # (a cycle through a loop adds nothing of its own)
+        seen = seen | {nm}
+        vals = []
+        for n in ast.walk(fi.node):
+            if isinstance(n, ast.Assign):
+                for t in n.targets:
+                    if isinstance(t, ast.Name) and t.id == nm:
+                        vals.append(flow(n.value, seen))
+                    elif isinstance(t, (ast.Tuple, ast.List)) and any(isinstance(x, ast.Name) and x.id == nm for x in t.elts):
+                        vals.append(flow(n.value, seen))
+            elif isinstance(n, (ast.For, ast.comprehension)) and any(isinstance(x, ast.Name) and x.id == nm for x in ast.walk(n.target)):
+                vals.append(flow(n.iter, seen))
+            elif isinstance(n, ast.Call) and isinstance(n.func, ast.Attribute) and n.func.attr in ("append", "extend", "insert") and isinstance(n.func.value, ast.Name) \
+                    and n.func.value.id == nm and n.args:
+                vals.append(flow(n.args[-1], seen))
+        vals = [v for v in vals if v != "const"]
+        return comb(vals) if vals else None
+
+    def flow(x, seen):
+        if isinstance(x, ast.Constant) or (isinstance(x, (ast.List, ast.Tuple, ast.Dict)) and not getattr(x, "elts", getattr(x, "keys", None))):
+            return "const"
+        if isinstance(x, ast.Name):
+            return name_flow(x.id, seen)
+        if isinstance(x, (ast.Subscript, ast.Starred)):
+            return flow(x.value, seen)
+        if isinstance(x, ast.Attribute):
+            return flow(x.value, seen)
+        if isinstance(x, (ast.List, ast.Tuple)):
+            return comb(v for v in (flow(y, seen) for y in x.elts) if v != "const")
+        if isinstance(x, ast.IfExp):
+            return comb(v for v in (flow(x.body, seen), flow(x.orelse, seen)) if v != "const")
+        if isinstance(x, ast.BinOp):
+            return comb(v for v in (flow(x.left, seen), flow(x.right, seen)) if v not in ("const", None)) or None
+        if isinstance(x, (ast.ListComp, ast.GeneratorExp)):
+            return flow(x.elt, seen)
+        if isinstance(x, ast.Call):
+            last = astq.src(x.func).split(".")[-1]
+            args = list(x.args) + [k.value for k in x.keywords if k.arg not in ("dtype", "axis", "copy")]
+            if isinstance(x.func, ast.Attribute) and not (isinstance(x.func.value, ast.Name) and x.func.value.id in ("np", "numpy", "copy")):
+                args = [x.func.value] + args
+            inner = [v for v in (flow(a, seen) for a in args) if v != "const"]
+            if last in ORDER_LOSING_CALLS:
+                return "lost" if any(v in ("kept", "lost") for v in inner) else None
+            if last in ORDER_KEEPING_CALLS:
+                inner = [v for v in inner if v is not None] if last == "where" else inner
+                return comb(inner)
+            try:
+                r = prog.resolve_call(fi, x)
+            except Exception:
+                r = None
+            if getattr(r, "node", None) is not None and isinstance(r.node, ast.FunctionDef) and depth > 0 and r.qual not in _seen:
+                m_, errs = astq.bind_args(r.node, x)
+                src_params = {p_ for p_, a_ in m_.items() if isinstance(a_, ast.AST) and flow(a_, seen) in ("kept", "lost")}
+                if any(isinstance(a_, ast.AST) and flow(a_, seen) == "lost" for a_ in m_.values()):
+                    return "lost"
+                if not src_params:
+                    return None
+                rets = [n_ for n_ in ast.walk(r.node) if isinstance(n_, ast.Return) and n_.value is not None]
+                return comb(order_flow(prog, r, n_.value, src_params, depth - 1, _seen + (fi.qual,)) for n_ in rets) if rets else None
+            return None
+        return None
+    r_ = flow(e, frozenset())
+    return None if r_ == "const" else r_
+
+
 def reflists(prog, run, rule):
     """the reference lists handed to every later split / merge are the lists AS GIVEN by the user (listed order is the only thing that
     pairs reference k of one setup with reference k of another): every store into `self.ref_ind` is the constructor argument or an
@@ -196,6 +286,13 @@ def reflists(prog, run, rule):
                     base_ok = any(isinstance(z, ast.Name) and z.id in params for z in ast.walk(x)) or "_initial_ref_ind" in astq.src(x)
                     plain = isinstance(x, (ast.Name, ast.Attribute)) or all(c in COPIES or c.startswith(".") for c in calls)
                     ok = False if losing else (True if (base_ok and plain) else None)
+                    if ok is None:
+                        # through a validating / normalising helper: does what it returns keep the listed order of what it is given?
+                        fl = order_flow(prog, m, st.value, params - {"self"})
+                        if fl is not None:
+                            ok = fl == "kept"
+                            if not ok:
+                                losing = ["a sort / unique / set inside the helper it is passed through"]
                     run.ob(rule, m.qual, "reference lists are stored as given (listed order kept)", ok,
                            f"`self.ref_ind = {astq.src(x, 70)}`" + (f" passes the lists through {losing}: the listed order (the pairing of references across setups) is lost for every later split" if losing else ""),
                            witness=astq.src(x, 70), file=f, node=st)
